@@ -241,7 +241,30 @@ def run(chk):
                         what="reverse map initialiser not recognised as `(a..b).for_each(|a| res.insert(%s[a], a))`: range=%s inserts=%s tables=%s" % (tab.split("::")[-1], rng, [(i[0], i[1]) for i in ins], sorted(tabs)))
             continue
         kshow, vshow = ins[0][0], ins[0][1]
-        ok = ("[" in kshow and ("a" in vshow or "_2" in vshow) and tab.split("::")[-1] in kshow) or (bool(loop_ins) and kshow == "T[i]" and vshow == "i")
+
+        def plain_index(v, k):
+            """the inserted code is the index itself (through casts / the checked char conversion), and the key is TABLE[that index]"""
+            x = v
+            for _ in range(8):
+                if x[0] == "cast":
+                    x = x[2]
+                elif x[0] in ("deref", "ref"):
+                    x = x[1]
+                elif x[0] == "call" and x[1].split("::")[-1] in ("unwrap", "from_u32", "from", "into", "from_digit", "try_from", "expect") and len(x[2]) >= 1:
+                    x = x[2][0]
+                else:
+                    break
+            y = k
+            while y[0] in ("deref", "ref", "cast"):
+                y = y[2] if y[0] == "cast" else y[1]
+            if y[0] == "index":
+                iy = y[2]
+                while iy[0] in ("cast", "deref", "ref"):
+                    iy = iy[2] if iy[0] == "cast" else iy[1]
+                return iy == x
+            # enumerate / range-loop forms: the key is the item's element, the value its position (checked by direct_loop_form)
+            return x[0] in ("field", "var")
+        ok = (("[" in kshow and tab.split("::")[-1] in kshow) or (bool(loop_ins) and kshow == "T[i]")) and plain_index(ins[0][3], ins[0][2])
         chk.obligation(ok)
         if not ok:
             chk.finding("%s|reverse-map-insert" % rev, rule="R-CONV-SHAPE", where="src/parsers/%s" % name, fn=rev,
